@@ -34,14 +34,14 @@ def run(chk):
   symtree_check.model_check(chk, ['C07_thorough.cfg' if thorough else 'C07_quick.cfg'])
   hits = {}
   plan = [('C07_sim.cfg', 450, 30), ('C07_sim_obj.cfg', 250, 30)] if not thorough else \
-         [('C07_sim.cfg', 5000, 40), ('C07_sim_obj.cfg', 2500, 40)]
+         [('C07_sim.cfg', 3500, 40), ('C07_sim_obj.cfg', 1800, 40)]
   for cfg, num, depth in plan:
     h = symtree_check.replay_simulated(chk, cfg, CLAUSES, num, depth, chk.seed, in_scope=only_after_copy,
                                        batches=1 if not thorough else 8)
     for k, v in h.items():
       hits[k] = hits.get(k, 0) + v
   h = symtree_check.replay_transitions(chk, 'C07_states.cfg' if not thorough else 'C07_states_thorough.cfg', 'C07_step.cfg', CLAUSES,
-                                       max_states=250 if not thorough else 5000, seed=chk.seed)
+                                       max_states=250 if not thorough else 3000, seed=chk.seed)
   for kk, v in h.items():
     hits[kk] = hits.get(kk, 0) + v
   dna_clones(chk, thorough)
